@@ -8,6 +8,8 @@ from .worker import WorkerDied, WorkerTimeout
 
 def observe(res, var='X'):
     """('val', term) | ('err', formal) | ('panic', info) | ('other', text)"""
+    if res.bad is not None:
+        return ('unparsable', repr(res.bad)[:300])
     if isinstance(res.end, tuple):
         if res.end[0] == 'exception':
             return ('err', res.formal())
